@@ -31,7 +31,9 @@ let parse_op s =
   | ["Y"] -> OSync
   | _ -> failwith ("bad op " ^ s)
 
-let ent_hash e = crc32c (entry_marshal e)
+let ent_hash e =
+  let b = entry_marshal e in
+  n_of_hex (Printf.sprintf "%s%08x" (hex_of_n (crc32c b)) (int_of_n (fnv1a32 b)))
 
 let rec_strs (ops : wop list) : string list =
   "n0.0" :: List.concat (List.map (function
